@@ -57,7 +57,10 @@ Lemma source_static_max :
   src_static_max ["max_level_debug"%string; "max_level_warn"%string] = 2 /\
   (* without debug assertions *)
   src_static_max_of true ["max_level_info"%string; "release_max_level_trace"%string] = 5 /\
-  src_static_max_of true ["max_level_debug"%string; "release_max_level_info"%string] = 3.
+  src_static_max_of true ["max_level_debug"%string; "release_max_level_info"%string] = 3 /\
+  (* two features of one family (cargo feature unification): the most restrictive one *)
+  src_static_max ["max_level_debug"%string; "max_level_info"%string] = 3 /\
+  src_static_max_of true ["release_max_level_debug"%string; "release_max_level_info"%string; "max_level_error"%string] = 3.
 Proof. repeat split; vm_compute; reflexivity. Qed.
 
 (** ... and for EVERY feature selection and both profiles: the compile-time cap is what the feature names configure —
@@ -66,11 +69,11 @@ Proof. repeat split; vm_compute; reflexivity. Qed.
     configured to; in particular `release_max_level_trace` means TRACE whatever `max_level_*` features are also on.) *)
 Lemma source_static_cap_is_configured release (on : string -> bool) :
   match configured_cap release on with
-  | Some l => static_max_of (g_static_max gen_guard) (g_static_release_falls_through gen_guard) release on = l
+  | Some l => static_max_of (g_static_max gen_guard) (g_static_release_falls_through gen_guard) (g_static_last_wins gen_guard) release on = l
   | None => True
   end.
 Proof.
-  unfold configured_cap, static_max_of. destruct release; simpl.
+  unfold configured_cap, static_max_of, pick_row. destruct release; simpl.
   all: repeat match goal with
               | |- context [if ?g ?f then _ else _] => destruct (g f)
               end; simpl; try reflexivity; try exact I.
